@@ -179,3 +179,33 @@ Example C06_region_op_immovable :
   /\ wf_scope C06_region_probe = true /\ wf_scope C06_region_unrepaired = false.
 Proof. repeat (split; [vm_compute; reflexivity|]). vm_compute. reflexivity. Qed.
 Print Assumptions C06_region_op_immovable.
+
+(* ---- block_overlap_preserves: the model's block rule on ARBITRARY programs ------------------------------------------
+   Whenever the rule fires anywhere in a program (any nesting) and the decidable side condition holds for the
+   block it rewrites — every moved op is an arith op or the setup; every statement it jumps over is quiet for the
+   setup's accelerator (no setup / launch of it, no reconfiguring call, at any depth), binds none of the moved
+   op's operands and does not read its result — the rewritten program produces, for every oracle and all inputs,
+   the same launches / awaits / calls in the same order with every launch observing the same registers.
+   The side condition is evaluated by the check on every block rewrite of the real pass. *)
+From Snax Require Import Model.C06BlockSide Proofs.C06BlockGenProofs.
+
+Theorem C06_block_overlap_preserves :
+  forall orc p o p' args,
+  block_overlap p o = Some p' ->
+  block_overlap_side_ok p o = true ->
+  trace_sim_b (run orc p args) (run orc p' args) = true.
+Proof. exact block_overlap_preserves. Qed.
+Print Assumptions C06_block_overlap_preserves.
+
+(* non-vacuity: a rewrite inside a loop body that jumps over an await, an unrelated arith op and another
+   accelerator's launch; the side condition holds and the rule fires *)
+Example C06_block_overlap_nonvacuous :
+  let p := mkProg [0; 1; 2; 3; 4]%nat
+     [SSetup 0 5 None [(0, 0)];
+      SFor 6 2 3 4 [(7, 5, TState 0)] [20]
+        [SLaunch 0 8 7 []; SAwait 0 8; SPure 9 (PBin BAdd 0 1); SSetup 1 10 None [(1, 9)]; SLaunch 1 11 10 [];
+         SPure 12 (PId 6); SPure 13 (PBin BMul 12 1); SSetup 0 14 (Some 7) [(0, 13)]; SLaunch 0 15 14 []; SAwait 0 15]
+        [14]]%nat in
+  block_overlap_side_ok p 14%nat = true /\ exists p', block_overlap p 14%nat = Some p' /\ prog_eqb p p' = false.
+Proof. split; [vm_compute; reflexivity|eexists; split; vm_compute; reflexivity]. Qed.
+Print Assumptions C06_block_overlap_nonvacuous.
